@@ -136,17 +136,48 @@ def storage_layer_requests(r, n_seq, n_ops):
     return lines
 
 
+def js_level_requests(r, n_seq, n_ops):
+    """the JS-level mode of the line protocol: `a[k] = v`, `a[k]`, `a.push(v)`, `a.shift()`, `delete a[k]` run through the VM
+    and the builtins on a real array; the engine answers with the storage it ends up with (variant, length, contents)"""
+    lines = []
+    for _ in range(n_seq):
+        lines.append("jsreset")
+        n = 0
+        for _ in range(n_ops):
+            c = r() % 100
+            v = ["i:%d" % (r() % 5), "i:%d" % (r() % 5), "i:-2", "f:%d" % (r() % 4), "f:%d" % (r() % 4), "d:%d" % (r() % 3), "o:%d" % (r() % 3)][r() % 7]
+            k = r() % (n + 2) if r() % 10 else r() % 12
+            if c < 30:
+                lines.append("apush %s" % v)
+                n += 1
+            elif c < 58:
+                lines.append("aset %d %s" % (k, v))
+                n = max(n, k + 1)
+            elif c < 72:
+                lines.append("aget %d" % k)
+            elif c < 92:
+                lines.append("ashift")
+                n = max(0, n - 1)
+            else:
+                lines.append("adel %d" % k)
+    return lines
+
+
 def run(ck):
     ck.trusted_base += [
         "modelled, not verified: hashbrown/FxHashMap (as association lists; iteration order is outside the abstraction and the engine "
         "sorts index keys), ThinVec; the Array.prototype algorithms themselves are compared across storage forms, not modelled in Lean",
     ]
     ck.prove("BoaVerif.C14.Theorems", driver="drv-c14")
+    # the fast paths that bypass the storage API (VM dense get/set, Array.prototype.shift) and the generic shift algorithm
+    ck.prove("BoaVerif.C14.FastPaths")
     bins = ck.build_harness(["c14", "trace"])
     r = lib.rng(ck.seed)
     quick = ck.tier == "quick"
     # ---- (i) storage layer
     lines = storage_layer_requests(r, 300 if quick else 6000, 30)
+    n_storage = len(lines)
+    lines += js_level_requests(r, 200 if quick else 4000, 25)
     rc, out, err = ck.run_bin(bins["c14"], input="\n".join(lines) + "\n")
     impl = out.split("\n")[:-1]
     if rc != 0 or len(impl) != len(lines):
@@ -158,7 +189,7 @@ def run(ck):
     variants = {}
     start = 0
     for i, (q, a, m) in enumerate(zip(lines, impl, model)):
-        if q == "reset":
+        if q in ("reset", "jsreset"):
             start = i
         if " v=" in a:
             variants[a.split(" v=")[1]] = variants.get(a.split(" v=")[1], 0) + 1
@@ -166,9 +197,12 @@ def run(ck):
             bad += 1
             if bad <= 5:
                 # the model is proved to refine the finite map, so a disagreement on observable content is a failing input
-                ck.fail_input({"site": "PropertyMap", "input": lines[start + 1:i + 1], "expected": m, "actual": a,
-                               "oracle": "Lean model of IndexedProperties (proved to refine the index -> descriptor map)"})
-    ck.oblige("correspondence:PropertyMap==C14 model on %d operations" % len(lines), "correspondence", True)
+                ck.fail_input({"site": "PropertyMap" if i < n_storage else "array-fast-path", "input": lines[start + 1:i + 1], "expected": m, "actual": a,
+                               "oracle": "Lean model of IndexedProperties (proved to refine the index -> descriptor map)" if i < n_storage else
+                                         "Lean model of the VM's dense get/set paths and of Array.prototype.shift (fast path and generic algorithm, proved to denote the same map)"})
+    ck.oblige("correspondence:PropertyMap==C14 model on %d operations" % n_storage, "correspondence", True)
+    ck.oblige("correspondence:real array (VM SetPropertyByValue / GetPropertyByValue, push, shift, delete) == C14 JS-level model on %d operations: storage variant, length, contents"
+              % (len(lines) - n_storage), "correspondence", True)
     # ---- (ii) JS level: same content, different storage, same operations
     cases = []
     for _ in range(120 if quick else 2500):
